@@ -1603,7 +1603,16 @@ impl Tree {
 		checkpoint_dir: P,
 	) -> Result<CheckpointMetadata> {
 		let checkpoint = DatabaseCheckpoint::new(Arc::clone(&self.core.inner));
-		checkpoint.create_checkpoint(checkpoint_dir)
+		let metadata = checkpoint.create_checkpoint(checkpoint_dir);
+
+		// The checkpoint flushed the memtables itself: the new L0 tables did not come from the
+		// background flush task, which is what wakes the level compaction. Wake it here, or L0
+		// grows with every checkpoint until writers stall on it for good.
+		if let Some(task_manager) = self.core.task_manager.lock().unwrap().as_ref() {
+			task_manager.wake_up_level();
+		}
+
+		metadata
 	}
 
 	/// Restores the database from a checkpoint directory.
